@@ -232,7 +232,7 @@ def minimize(
         # we split x0 into a vector with real/imaginary parts stacked
         # and compose `func` with a `_join_real_imag`
         iscomplex = True
-        func_ = lambda x: func(_join_real_imag(x))
+        func_ = lambda x, *args: func(_join_real_imag(x), *args)
         x0 = _split_real_imag(x0)
     else:
         iscomplex = False
